@@ -794,7 +794,7 @@ def execute_real(rig, root, case, name):
         f.close()
 
     try:
-        st, v = with_watchdog(body, WATCHDOG)
+        st, v = with_watchdog(body, case.get("watchdog", WATCHDOG))
     finally:
         for obj, attr in ((rig.sftp, "_async_request"), (chan, "send")):
             try:
@@ -857,7 +857,7 @@ REGRESSIONS = [
      "BaseSFTP._send_packet is not a critical section: while a prefetch thread is still sending READ requests, another "
      "request of the same SFTPClient that needs more than one sock.send (partial sends) gets the thread's bytes in "
      "between; the server reads garbage and the session wedges or is dropped",
-     {"size": 1000, "mode": "full", "seed": 21, "partial_send": True,
+     {"size": 1000, "mode": "full", "seed": 21, "partial_send": True, "watchdog": 6.0,
       "ops": [["prefetch", None, 4194304], ["write", 300000], ["seek", 0], ["read", 1000]]}),
     ("reply-before-extent-registered",
      "the reader receives a prefetch reply before _prefetch_thread has recorded the request (registration delayed "
@@ -926,7 +926,7 @@ def real_oracle(ctx, scale):
 
 
 def run(ctx):
-    scale = 6 if ctx.thorough else 1
+    scale = 4 if ctx.thorough else 1
     ctx.rule = ("seeded (random.Random('C28-<seed>')). Direct drive: random prefetch-buffer / extent dictionaries with "
                 "offsets at and around buffer and extent boundaries; scripted sessions (files 0..120 bytes, "
                 "MAX_REQUEST_SIZE 4..32, bufsize 0/3/10/default, prefetch with right / too large / too small size, "
